@@ -81,6 +81,7 @@ CHECKS = {
    ref="DESIGN.md §4 C03",
    note="bounds: <=2/3 packets, one result column (UInt64), 1-row telemetry blocks, integer fields 7 bit, revisions {54460, 54453, 54419, 51902} in quick (one symbolic revision >= 50264 in thorough), compression off, instrumentation off; non-preemptive schedules only"),
  "C12": dict(
+   tech="bounded symbolic execution of the real go/ssa code (own engine gosym, paths decided by z3); on every symbolic path a happens-before (vector clock) relation over the modelled synchronisation operations is an implicit assertion: no two conflicting accesses of library code unordered; reported races are replayed natively under the Go race detector",
    level="model_checking",
    text="Client.Do's sender, receiver and cancel-watch goroutines (real errgroup, context model) are executed symbolically over a goroutine-safe scripted connection for a SELECT (progress, data, profile, end of stream), a streamed INSERT whose progress packets arrive while blocks are still being sent, the SELECT with Client.Close called from a foreign goroutine, and a Ping afterwards; OpenTelemetry instrumentation off and on (no-op tracer); three scheduling policies; a chpool shared by two goroutines plus the idle health check. A happens-before (vector clock) analysis inside the executor treats 'two conflicting accesses of library code not ordered by go/channel/close/select/Mutex/Once/WaitGroup/Pool/atomic/context edges' as an implicit assertion on every symbolic path. A reported race is replayed in a -race build and must be confirmed by the Go race detector; witness replays run under -race too and a native report on an engine-clean path makes the check inconclusive.",
    ref="DESIGN.md §2.8, §4 C12",
@@ -125,7 +126,7 @@ def main():
               "engine":"gosym",
               "level_claimed":{"category":c["level"],"text":c["text"],"design_ref":c["ref"]},
               "level_note":c["note"],
-              "technique":TECH,
+              "technique":c.get("tech",TECH),
             })
     na=[]
     for pid in props:
